@@ -323,6 +323,30 @@ func (f *Folder) Expr(pk *packages.Package, e ast.Expr, env fenv) (*fval, error)
 		if tv, ok := info.Types[e]; ok && isNamed(tv.Type, "crypto/elliptic", "CurveParams") {
 			return f.Curve()
 		}
+		// []byte{...} / [N]byte{...} literals
+		if tv, ok := info.Types[e]; ok {
+			var elem types.Type
+			switch tt := tv.Type.Underlying().(type) {
+			case *types.Slice:
+				elem = tt.Elem()
+			case *types.Array:
+				elem = tt.Elem()
+			}
+			if b, ok := elem.(*types.Basic); elem != nil && ok && (b.Kind() == types.Uint8 || b.Kind() == types.Byte) {
+				var out []byte
+				for _, el := range e.Elts {
+					if _, isKV := el.(*ast.KeyValueExpr); isKV {
+						return nil, fmt.Errorf("keyed byte literal not foldable")
+					}
+					v, err := f.Expr(pk, el, env)
+					if err != nil || v.big == nil || !v.big.IsUint64() || v.big.Uint64() > 255 {
+						return nil, fmt.Errorf("byte literal element not foldable")
+					}
+					out = append(out, byte(v.big.Uint64()))
+				}
+				return &fval{k: fBytes, bytes: out}, nil
+			}
+		}
 	case *ast.SelectorExpr:
 		// field of CurveParams
 		if sel, ok := info.Selections[e]; ok && sel.Kind() == types.FieldVal {
